@@ -38,6 +38,7 @@ structure FrameIsA (a : Arch) (t : Trust) (e : Exp) (f : Frame) : Prop where
   regs : ∀ p ∈ e.regs, f.ctx.has a p.1 = true ∧ f.ctx.raw a p.1 = p.2 ∧ p.2 ≤ a.regMax
   spmax : e.sp ≤ a.regMax
   retmax : e.ret ≤ a.regMax
+  fpmax : ∀ v, e.fp = some v → v ≤ a.regMax
 
 /-- frame `f` is in the state `st` of `PreW` -/
 structure MView (w : World) (a : Arch) (f : Frame) (st : MState) : Prop where
@@ -47,6 +48,7 @@ structure MView (w : World) (a : Arch) (f : Frame) (st : MState) : Prop where
   spmax : st.sp ≤ a.regMax
   vsp : f.ctx.has a a.spName = true
   fp : st.fp = if f.ctx.has a a.fpName then some (f.ctx.raw a a.fpName) else none
+  fpmax : ∀ v, st.fp = some v → v ≤ a.regMax
   regs : ∀ r v, st.regs.lookup r = some v → f.ctx.has a r = true ∧ f.ctx.raw a r = v ∧ v ≤ a.regMax
   trust : st.first = true ↔ f.trust = .context
   lr : st.first = true → a.leafOk = true → st.lr = f.ctx.raw a (lrName a) ∧
@@ -61,12 +63,12 @@ theorem MView.eff {w : World} {a : Arch} {f : Frame} {st : MState} (hv : MView w
 
 theorem MView.symbolise {w : World} {a : Arch} {f : Frame} {st : MState} (env : Env) (hv : MView w a f st) :
     MView w a (symbolise env f) st :=
-  ⟨hv.m64, hv.instr, hv.sp, hv.spmax, hv.vsp, hv.fp, hv.regs, hv.trust, hv.lr⟩
+  ⟨hv.m64, hv.instr, hv.sp, hv.spmax, hv.vsp, hv.fp, hv.fpmax, hv.regs, hv.trust, hv.lr⟩
 
 /-- the frame a step produced is again in the state `PreW` moves to -/
 theorem MView.next {w : World} {a : Arch} {env : Env} {st : MState} {t : Trust} {e : Exp} {f' : Frame}
     (hg : FrameIsA a t e f') (ht : t ≠ .context) : MView w a f' (nextState env a st e) := by
-  refine ⟨hg.m64, hg.instr, hg.sp, hg.spmax, hg.vsp, hg.fp, ?_, ?_, ?_⟩
+  refine ⟨hg.m64, hg.instr, hg.sp, hg.spmax, hg.vsp, hg.fp, hg.fpmax, ?_, ?_, ?_⟩
   · intro r v hl
     exact hg.regs (r, v) (lookup_some_mem hl)
   · constructor
@@ -204,7 +206,7 @@ theorem step_cfi_arch {env : Env} {a : Arch} {w : World} {mem : Mem} (harch : en
     · rw [if_neg (by rw [hv.sp]; omega)]
     · rw [if_neg (by simp [h2, (hv.trust.mp h1), hv.sp, h3])]
   · have hfpcs := fpName_calleeSaved a
-    refine ⟨hip', hsp', rfl, rfl, by rw [res.m64]; exact hv.m64, ?_, ?_, ?_, ?_, hspm, hretm⟩
+    refine ⟨hip', hsp', rfl, rfl, by rw [res.m64]; exact hv.m64, ?_, ?_, ?_, ?_, hspm, hretm, ?_⟩
     · exact (hhas _ (ipName_canon a)).mpr (Or.inr (Or.inr (Or.inl rfl)))
     · exact (hhas _ (spName_canon a)).mpr (Or.inr (Or.inl rfl))
     · -- the frame pointer
@@ -254,5 +256,28 @@ theorem step_cfi_arch {env : Env} {a : Arch} {w : World} {mem : Mem} (harch : en
         rw [hlk] at h4 hpraw
         obtain ⟨q1, q2, q3⟩ := hv.regs p.1 p.2 h4
         exact ⟨(hhas _ hc).mpr (Or.inl ⟨h1, q1⟩), by rw [hpraw]; exact q2, q3⟩
+    · -- the claimed frame pointer fits the register
+      intro v hev
+      have hmask : ∀ x, x ≤ a.regMax → maskOf a env.mask x ≤ a.regMax := by
+        intro x hx
+        cases a <;> simp only [maskOf] <;> first | exact hx | exact Nat.le_trans Nat.and_le_left hx
+      cases hlk : saved.lookup a.fpName with
+      | some lit =>
+        rw [hlk, hev] at hfpc
+        injection hfpc with hfpc
+        rw [hfpc]
+        unfold slotWord
+        cases hrd : mem.read ((e.sp + lit) % W64) a.ptr with
+        | none => exact hmask _ (Nat.zero_le _)
+        | some x => exact hmask _ (read_le_regMax hrd)
+      | none =>
+        rw [hlk, hev] at hfpc
+        cases hsf : st.fp with
+        | none => rw [hsf] at hfpc; cases hfpc
+        | some x =>
+          rw [hsf] at hfpc
+          simp only [Option.map_some, Option.some.injEq] at hfpc
+          rw [hfpc]
+          exact hmask _ (hv.fpmax x hsf)
 
 end MdModel.Walk
